@@ -26,10 +26,13 @@ Spec == Init /\ [][Next]_cmds
 \* ---- encoder: 1 bbbbbbbb | 0 ppppppppppp llll
 BitsOfNum(v, n) == [k \in 1..n |-> (v \div 2^(n - k)) % 2]
 CmdBits(c) == IF c[1] = "L" THEN <<1>> \o BitsOfNum(c[2], 8) ELSE <<0>> \o BitsOfNum(c[2], 11) \o BitsOfNum(c[3], 4)
-AllBits == FoldLeft(LAMBDA a, c : a \o CmdBits(c), <<>>, cmds)
 \* pad with 1 bits: a trailing "1" plus up to 6 more bits is an incomplete literal - the decoder must stop there
-Padded == AllBits \o [k \in 1..((8 - (Len(AllBits) % 8)) % 8) |-> 1]
-Encoded == [i \in 1..(Len(Padded) \div 8) |-> FoldLeft(LAMBDA a, k : 2 * a + Padded[8 * (i - 1) + k], 0, [k \in 1..8 |-> k])]
+Encoded ==
+  LET bits == FoldLeft(LAMBDA a, c : a \o CmdBits(c), <<>>, cmds)
+      padded == bits \o [k \in 1..((8 - (Len(bits) % 8)) % 8) |-> 1]
+  IN [i \in 1..(Len(padded) \div 8) |->
+        128 * padded[8*i-7] + 64 * padded[8*i-6] + 32 * padded[8*i-5] + 16 * padded[8*i-4]
+        + 8 * padded[8*i-3] + 4 * padded[8*i-2] + 2 * padded[8*i-1] + padded[8*i]]
 
 \* ---- the production model, called until it returns 0
 ModelRun ==
@@ -55,9 +58,14 @@ PlainRun == FoldLeft(LAMBDA v, c : IF c[1] = "L" THEN Append(v, c[2])
 
 Flat(chunks) == FoldLeft(LAMBDA a, c : a \o c, <<>>, chunks)
 
-SameOutput == /\ Flat(ModelRun.chunks) = RingRun.out
-              /\ RingRun.out = SubSeq(PlainRun, W + 1, Len(PlainRun))
-OneChunkPerCommand == ModelRun.done /\ Len(ModelRun.chunks) = Len(cmds)
-SameRing == /\ RingOf(ModelRun.st.win, W, Start, Spaces) = RingRun.ring
-            /\ WPos(ModelRun.st.win, W, Start) = RingRun.pos
+\* one invariant (so that the three runs are evaluated once per state)
+Agree ==
+  LET m == ModelRun
+      r == RingRun
+      p == PlainRun
+  IN /\ Flat(m.chunks) = r.out                                   \* SameOutput
+     /\ r.out = SubSeq(p, W + 1, Len(p))
+     /\ m.done /\ Len(m.chunks) = Len(cmds)                      \* OneChunkPerCommand
+     /\ RingOf(m.st.win, W, Start, Spaces) = r.ring              \* SameRing
+     /\ WPos(m.st.win, W, Start) = r.pos
 =====================================================================================
